@@ -14,6 +14,7 @@ EXPLANATION = ('Const-evaluated relations (read from the compiler, not copied): 
                'pairwise distinct; the usize->u16 narrowing of the size word in overwrite_chain happens only on the edge where the remainder fits the entry; '
                'an existing value is overwritten in place only when the new value lands in the same size tier (a chained value replaced by a small one must '
                'be removed and re-inserted, else it is written without its MULTIHEAD marker).')
+EXPLANATION += ' Added: a value that may be chained is read through one locked overlay view (known finding F32, 8 sites); next-part links carry no order (no ordering test between a link and a slot position).'
 ASSUMPTIONS = ['DECLINED: chain reuse/trim logic, compression round trip, release of old storage', 'legacy (db_version <= 4) markers are not part of the disjointness check', 'unwind edges ignored']
 TRUSTED = ['rustc const evaluation + MIR construction (nightly)', 'pdb-facts driver', 'rule engine /verif/rules']
 
